@@ -44,25 +44,37 @@ where
 
       source.inner_subscribe(sctl.new_observer(
         move |_, x| {
-          let mut n = n.write().unwrap();
-          if *n == 0 {
-            sctl_next.sink_next(sbj_next.read().unwrap().observable());
+          // decide under the lock, call the subscribers with no lock held (they may feed
+          // the source again from their callbacks)
+          let (open, sbj, close) = {
+            let mut n = n.write().unwrap();
+            let open = *n == 0;
+            let sbj = sbj_next.read().unwrap().clone();
+            *n += 1;
+            // also for the item that opened the window (count == 1)
+            let close = *n == count;
+            if close {
+              *sbj_next.write().unwrap() = subjects::Subject::<Item>::new();
+              *n = 0;
+            }
+            (open, sbj, close)
+          };
+          if open {
+            sctl_next.sink_next(sbj.observable());
           }
-          sbj_next.read().unwrap().next(x);
-          *n += 1;
-          // also for the item that opened the window (count == 1)
-          if *n == count {
-            sbj_next.read().unwrap().complete();
-            *sbj_next.write().unwrap() = subjects::Subject::<Item>::new();
-            *n = 0;
+          sbj.next(x);
+          if close {
+            sbj.complete();
           }
         },
         move |_, e| {
-          sbj_error.read().unwrap().error(e.clone());
+          let sbj = sbj_error.read().unwrap().clone();
+          sbj.error(e.clone());
           sctl_error.sink_error(e);
         },
         move |serial| {
-          sbj_complete.read().unwrap().complete();
+          let sbj = sbj_complete.read().unwrap().clone();
+          sbj.complete();
           sctl_complete.sink_complete(&serial);
         },
       ));
